@@ -141,6 +141,9 @@ def cell_programs():
         for op in BINOPS:
             src = PRE + decl(lt, "a", 0) + "\n" + decl(rt, "b", 1) + "\nprint \"@run\"\n" + probe("a %s b" % op)
             out.append(("cell|%s|%s|%s" % (op, lt, rt), src))
+        # `a ?= b` is an expression (a bool) AND a store into a: both as a probed value and as a statement followed by a probe of a
+        out.append(("cell|?=-value|%s|%s" % (lt, rt), PRE + decl(lt, "a", 0) + "\n" + decl(rt, "b", 1) + "\nprint \"@run\"\n" + probe("a ?= b") + probe("a")))
+        out.append(("cell|?=-statement|%s|%s" % (lt, rt), PRE + decl(lt, "a", 0) + "\n" + decl(rt, "b", 1) + "\nprint \"@run\"\na ?= b\n" + probe("a")))
         if lt != "fixed":
             for op in OPASSIGN:
                 src = PRE + decl(lt, "a", 0) + "\n" + decl(rt, "b", 1) + "\nprint \"@run\"\na %s b\n" % op + probe("a")
@@ -296,6 +299,11 @@ def catalogue():
     NODE = "export class Node {\n\tvalue: int\n\tnext: Self?\n\tconstructor(self, value: int, next: Self?) {\n\t\tself.value = value\n\t\tself.next = next\n\t}\n\tfn next_value(self) -> int {\n\t\tn = get self.next\n\t\treturn n.value\n\t}\n}\n"
     c.append(("cat|self-parameter-of-imported-class-gets-caller", "import Node from lib\nclass Wrapper {\n\tfn make(self) -> Node {\n\t\treturn Node(1, self)\n\t}\n}\nw = Wrapper()\nn = w.make()\nprint \"@run\"\n" + probe("n.next_value()"), {"lib.ms": NODE}))
     c.append(("cat|self-parameter-of-imported-class-gets-instance", "import Node from lib\nclass Wrapper {\n\tfn make(self) -> Node {\n\t\ta = Node(1, nil)\n\t\treturn Node(2, a)\n\t}\n}\nw = Wrapper()\nn = w.make()\nprint \"@run\"\n" + probe("n.next_value()"), {"lib.ms": NODE}))
+    c.append(("cat|unpack-of-untyped-empty-list", "const [a, b] = [[], [1]]\nf = fn(p: [str...]) {\n\tp.push(\"s\")\n}\ng = fn(q: [int...]) -> int {\n\treturn q[0] + 1\n}\nf(a)\nprint \"@run\"\n" + probe("g(a)")))
+    c.append(("cat|call-of-object-field", "class A {\n\tn: int\n\tconstructor(self) {\n\t\tself.n = 1\n\t}\n}\nclass H {\n\ta: A\n\tconstructor(self) {\n\t\tself.a = A()\n\t}\n}\nh = H()\nprint \"@run\"\nx = h.a()\n" + probe("x.n")))
+    SL = ("class A {\n\tx: int\n\tconstructor(self) {\n\t\tself.x = 1\n\t}\n\tfn all(self) -> [Self...] {\n\t\treturn [self]\n\t}\n\tfn maybe(self) -> Self? {\n\t\treturn self\n\t}\n\tfn table(self) -> map[str, Self] {\n\t\treturn map[str, Self] {\"k\": self}\n\t}\n}\n")
+    for nm, e in (("list", "(a.all())[0]"), ("optional", "get a.maybe()"), ("map", "get (a.table())[\"k\"]")):
+        c.append(("cat|self-nested-in-result-used-in-other-class:" + nm, SL + "class B {\n\tx: str\n\tconstructor(self) {\n\t\tself.x = \"s\"\n\t}\n\tfn t(self, a: A) -> str {\n\t\tq = %s\n\t\treturn q.x\n\t}\n}\na = A()\nb = B()\nprint \"@run\"\n" % e + probe("b.t(a)")))
     c.append(("cat|void-call-as-value", "f = fn() {\n}\nprint \"@run\"\nx = f()\nprint x\n"))
     c.append(("cat|map-missing-key-arith", "m = map[str, int] {\"a\": 1}\nprint \"@run\"\n" + probe("m[\"zz\"]") + "y = m[\"zz\"] + 1\nprint y\n"))
     c.append(("cat|list-of-optional-arith", "l: [int?...] = [1, nil]\nprint \"@run\"\nx = l[0] + 1\nprint x\n"))
